@@ -61,6 +61,30 @@ fixed("C16", "flatten * To list:idless", "8dab7c3", "recipient de-duplication re
 # ---- C15
 fixed("C15", "typer item explicit-* actor *", "217dcb6", "CollectionPath.Of/IRI ignored an actor's explicit inbox/outbox/liked/following/followers (object branch overwrote the actor branch)", "items layer: actor ... inbox explicit=iri")
 
+# ---- C08
+fixed("C08", "view *Tombstone Object * layout", "da5d5ae", "ToTombstone reinterpreted an *Object as the larger *Tombstone: formerType/deleted lay outside the value (checkptr abort)", "matrix: ToTombstone Object ptr")
+fixed("C08", "view *Relationship Object * layout", "a1233db", "ToRelationship reinterpreted an *Object as the larger *Relationship", "matrix: ToRelationship Object ptr")
+known("C08", "view *OrderedCollectionPage CollectionPage * layout", "ToOrderedCollectionPage/OnOrderedCollectionPage reinterpret a CollectionPage (744 bytes) as an OrderedCollectionPage (752 bytes): startIndex lies outside the value. "
+      "Not repaired: TestToOrderedCollectionPage requires this conversion to succeed, and a copying conversion would not be a view (writes would not reach the original).",
+      "matrix cell: ToOrderedCollectionPage CollectionPage ptr")
+
+# ---- C02 / C06 (what the encoders write)
+fixed("C02", "json-out * invalid-json chars=*", "f02164d", "ids, IRIs, types, media types, units, hrefLang and key owners were written unescaped: backslash/control characters gave invalid JSON, a quote followed by JSON text injected or overrode members (re-serialised document decoded as a Delete)", "hostile layer: method Object.ID \"\\\",\\\"type\\\":\\\"Delete\"")
+fixed("C02", "json-out *.* string-altered chars=backslash", "24a516a", "NaturalLanguageValues.MarshalJSON passed single values through unescape(): text with backslash sequences was written as a different text", "hostile layer: method Name.text \"a\\\\\\\"b\"")
+fixed("C02", "json-out Object.Source missing *", "123191c", "Source.MarshalJSON lost the media type when the content had nothing to write (flag overwritten)", "random layer: Source{MediaType, Content:[-:\"\"]}")
+fixed("C02", "json-out Object invalid-json chars=benign", "1a4b390", "a language map holding an untagged (nil language tag) value was written without a member name: invalid JSON", "hostile layer: method Name.map-with-niltag")
+fixed("C06", "text json * * escape-lookalike *", "0326d7f", "decoded natural-language text was parsed as JSON and unescaped a second time: C:\\new came back with a line feed, 42/true/null/[1,2]/\"q\" came back empty or altered, language-map entries lost surrounding quotes", "constants layer: Object.Name json-pkg \"C:\\\\new\"")
+fixed("C06", "text json Source.Content * * *", "1020738", "a source's decoded content was parsed as a JSON document again", "constants layer: Object.Source.Content json-pkg \"42\"")
+# ---- C20
+fixed("C20", "nil Flatten * list panic@*", "972bf1d", "recipient de-duplication only skipped the untyped nil: a nil pointer in an addressee list made Recipients/Flatten/FlattenProperties panic", "cells: Flatten (*Actor)(nil) list")
+fixed("C20", "nil GobEncode * * panic@*", "8caaaf9", "GobEncode of nil, of a nil pointer, or of a value holding one panicked in GetType", "cells: GobEncode (*Object)(nil) top")
+fixed("C20", "nil IRIs.* * top panic@*", "be7b19d", "IRIs.Contains/Append called GetLink on a nil item", "cells: IRIs.Contains nil top")
+fixed("C20", "nil ItemsEqual(x,x) * * panic@*", "d2036a8", "ItemCollection.Equals called GetLink on nil members: comparing a value with a nil entry in a list panicked", "cells: ItemsEqual(x,x) nil list")
+fixed("C20", "nil MarshalJSON * * panic@*", "1686a27", "the JSON writer called MarshalJSON on nil pointers held in properties and lists", "cells: MarshalJSON (*Object)(nil) prop")
+fixed("C20", "nil OnCollectionIntf * top panic@*", "92cd929", "OnCollectionIntf only checked the untyped nil", "cells: OnCollectionIntf (*Tombstone)(nil) top")
+fixed("C20", "nil *ToItemCollection * top panic@ToItemCollection", "17f659c", "ToItemCollection/OnItemCollection dereferenced nil collection pointers", "cells: OnItemCollection (*Collection)(nil) top")
+fixed("C20", "nil ToActivity nil top panic@ToActivity", "0dccdd1", "ToActivity(nil) called reflect.TypeOf(nil).ConvertibleTo", "cells: ToActivity nil top")
+
 out = {"comment": "Committed list of genuine defects of go-ap/activitypub found by the checks (rendered by tools/findings.py; never written at check run time). "
                   "status=known: recorded, not repaired; the check prints KNOWN-FINDING and masks exactly the keyed cell. "
                   "status=fixed: repaired by the named fix: commit in /repo; masks nothing, the violation is reported again if it returns.",
